@@ -22,11 +22,16 @@ for patch in sorted(glob.glob(out + "/R*.patch.diff")):
         meta_in = json.load(open(os.path.join(out, X + ".meta.json")))
     except Exception:
         pass
-    subprocess.run("git checkout -q -- . ", shell=True, cwd=wt)
-    rc = subprocess.run("git apply %s" % patch, shell=True, cwd=wt).returncode
-    p = subprocess.run("cargo test --workspace --offline 2>&1 | grep -E '^test result|FAILED|^error'", shell=True, cwd=wt, env=env, stdout=subprocess.PIPE, text=True)
-    suite_ok = rc == 0 and "FAILED" not in p.stdout and "error" not in p.stdout and p.stdout.count("test result: ok") >= 3
-    subprocess.run("git checkout -q -- . ", shell=True, cwd=wt)
+    d_prev = "/verif/selftest/refactors/%s-%s%s/meta.json" % (NAME, "" if ROUND == "R" else ROUND.lower() + "-", X)
+    if os.environ.get("SKIP_SUITE") and os.path.exists(d_prev):
+        # re-evaluation after rule changes: the patch and the tree are unchanged, the suite result is kept
+        suite_ok = json.load(open(d_prev)).get("suite_passes")
+    else:
+        subprocess.run("git checkout -q -- . ", shell=True, cwd=wt)
+        rc = subprocess.run("git apply %s" % patch, shell=True, cwd=wt).returncode
+        p = subprocess.run("cargo test --workspace --offline 2>&1 | grep -E '^test result|FAILED|^error'", shell=True, cwd=wt, env=env, stdout=subprocess.PIPE, text=True)
+        suite_ok = rc == 0 and "FAILED" not in p.stdout and "error" not in p.stdout and p.stdout.count("test result: ok") >= 3
+        subprocess.run("git checkout -q -- . ", shell=True, cwd=wt)
     S = tempfile.mkdtemp(prefix="verif-ref-")
     fired = {}
     try:
